@@ -95,12 +95,16 @@ def run_selftest(prop, only=None, keep=False, verbose=True):
                 continue
             keys = [v["key"] for v in viol if v["key"] not in base_set] + (["ANCHOR:" + a for a in r.anchor_errors])
             expect = m.get("expect", [])
-            hit = all(any(e in k for k in keys) for e in expect) and bool(keys)
+            if m.get("silent"):
+                # a behaviour-preserving edit: the rules must stay silent on it
+                hit = not keys
+            else:
+                hit = all(any(e in k for k in keys) for e in expect) and bool(keys)
             res["details"].append({"mutant": m["_file"], "desc": m.get("desc", ""), "reported": keys[:6], "expected": expect, "caught": hit, "wall_s": round(time.time() - t0, 1)})
             if hit:
                 res["caught"] += 1
                 if verbose:
-                    print("  selftest: caught %-40s -> %s" % (m["_file"], keys[:2]))
+                    print("  selftest: %s %-40s -> %s" % ("silent-ok" if m.get("silent") else "caught", m["_file"], keys[:2]))
             else:
                 res["missed"].append(m["_file"])
                 if verbose:
